@@ -205,7 +205,7 @@ PROPS["C18"] = dict(
     assumptions=["format_error_impl reached through the add-only cfg(lexical_verif) hook"],
 )
 
-KANI_BUCKETS = 3
+KANI_BUCKETS = 4
 RANK = {"quick": 0, "thorough": 1, "deep": 2}
 
 
@@ -249,12 +249,17 @@ def build_jobs(prop, tier, wd, only=None):
     for (fs, cls), lst in groups.items():
         sizes[fs] = sizes.get(fs, 0) + len(lst)
     nb = max(1, min(KANI_BUCKETS, len(sizes)))
-    tot = sum(sorted(sizes.values(), reverse=True)[:nb]) or 1
+    tot = sum(sizes.values()) or 1
+    # every bucket gets at least min(2, its size) jobs, the rest of the 13 in proportion to the number of harnesses
+    alloc = {fs: min(2, n) for fs, n in sizes.items()}
+    spare = max(0, 13 - sum(alloc.values()))
+    for fs, n in sizes.items():
+        alloc[fs] = min(n, alloc[fs] + (spare * n) // tot)
     for (fs, cls), lst in sorted(groups.items()):
         label = "kani[%s]%s" % (fs, "/" + cls if cls else "")
-        per = 12 if nb == 1 else max(1, min(len(lst), (12 * sizes[fs]) // tot))
+        per = 12 if len(sizes) == 1 else max(1, min(len(lst), alloc[fs]))
         if cls:
-            share = 44 if nb == 1 else max(8, (44 * sizes[fs]) // tot)
+            share = 44 if len(sizes) == 1 else max(8, (44 * sizes[fs]) // tot)
             per = max(1, min(per, int(share // max(h.mem_gb for h in lst))))
         jobs.append((label, (lambda l=label, x=lst, f=fs, j=per: kunit.run_group(l, x, f, jobs=j)), "kani:" + fs))
     return jobs
